@@ -67,7 +67,7 @@ def run(prop, scenarios, repo, seed, jobs, outdir):
                     failing, out = s, o1
                     cls, msg = _classify(o1)
                     break
-            rdir = os.path.join(VERIF, "replays", prop)
+            rdir = os.path.join(VERIF, "replays", prop) if repo == "/repo" else os.path.join(VERIF, "build", "replays-scratch", prop)
             os.makedirs(rdir, exist_ok=True)
             path = os.path.join(rdir, f"{prop}-miri-{sc['name']}-{failing}.json")
             json.dump(dict(property=prop, engine="miri", scenario=sc["name"], argv=sc["argv"], miri_seed=failing,
